@@ -132,6 +132,9 @@ func init() {
 		"lb-sequences-checked", "lc-checks")
 	props["C17"] = simProp("whole-engine runs in which the simulated kernel fabricates peer addresses for accept4 (IPv4, IPv6 loopback, link-local IPv6 with zone ids of existing and non-existing interfaces, unix) and listeners bound to zoned addresses; at every callback of every connection RemoteAddr must equal the peer address as the kernel knows it (IP, port, zone name) and LocalAddr the listener's bound address, for the whole life of the connection while other connections open and close and recycle zone strings through the pool; non-trivial = at least two address checks;"+sig,
 		"address-checks")
+	props["C08"] = simProp("whole-engine runs on a udp listener (reuseport group of 1..4 loops, IPv4 or IPv6 incl. zoned link-local sources): 1..6 simulated senders inject 1..14 datagrams of 0..65507 bytes (bias 0/1, read-buffer size +-1, maximum) in seeded interleavings with the loops; the handler consumes none/part/all with Read/Next/Discard and replies with Write, SendTo(other sender) and AsyncWrite; the simulated kernel knows which datagram each recvfrom returned, so the OnTraffic that follows must show exactly that payload (InboundBuffered, Peek(-1), truncated to the read buffer), that source as RemoteAddr, once per datagram, with nothing carried over; every sendto must be exactly one expected reply with exact bytes to the right address; non-trivial = at least two datagrams handled;"+sig,
+		"udp-datagrams-handled", "udp-partial-consumption", "udp-replies-checked", "udp-truncated")
+	props["C08"].variantsQ = []string{"default", "poll_opt"}
 	props["C07"] = simProp("same runs as C04/C06; oracle = the simulated kernel's ledger: any framework call on a closed or foreign descriptor number is a violation at that step (canaries grab freed numbers at once), every framework-created descriptor closed exactly once by the time Run returns, unix-socket file removed; non-trivial = a descriptor number was re-used or a connection closed;"+sig,
 		"fd-number-reused", "canary-grabbed")
 }
